@@ -103,6 +103,7 @@ class RefGen:
         self.native = tuple(native)  # types a format dialect leaves unconverted
         self.no_copy = tuple(no_copy)
         self.namedtuple_as_dict = namedtuple_as_dict
+        self.static_dataclasses = False
 
     def bind(self, obj, hint="o"):
         for k, v in self.ns.items():
@@ -323,6 +324,9 @@ class RefGen:
         if isinstance(t, type) and hasattr(t, "_deserialize") and hasattr(t, "_serialize"):
             return f"{x}._serialize()"
         if is_mixin_dataclass(t):
+            if self.static_dataclasses:
+                # codec path: the unit compiled for exactly this class (no dynamic dispatch)
+                return f"{self.bind(t)}.__mashumaro_to_dict__({x})"
             return f"{x}.__mashumaro_to_dict__()"
         if t in (datetime.datetime, datetime.date, datetime.time):
             return f"{x}.isoformat()"
